@@ -49,9 +49,18 @@ func (p *c20Input) Start(_ AnyConfig, params *InputPluginParams) {
 		params.Controller.SuggestDecoder(p.suggest)
 	}
 }
-func (p *c20Input) Stop()                   {}
-func (p *c20Input) Commit(_ *Event)         {}
-func (p *c20Input) PassEvent(_ *Event) bool { return !p.committed.Load() }
+func (p *c20Input) Stop()           {}
+func (p *c20Input) Commit(_ *Event) {}
+func (p *c20Input) PassEvent(event *Event) bool {
+	if m, ok := p.saved.Load().(map[StreamName]int64); ok && m != nil {
+		// plugin/input/file PassEvent: already committed iff the saved offset of the event's own stream is not older
+		if off, has := m[event.streamName]; has {
+			return event.Offset > off
+		}
+		return true
+	}
+	return !p.committed.Load()
+}
 
 type c20Delivered struct {
 	seq      uint64
